@@ -1,14 +1,17 @@
 """C10 - a drawing call's effect is independent of earlier calls."""
 from .. import scenecheck as sc, scene, gen
+from ..gen import f32bits as FB
 from . import _scene
 
-CFG = dict(nops=10, maxdim=10, init="random", p_clip=0.2, p_layer=0.0, p_structured=0.2, sources=["solid", "image"],
+CFG = dict(nops=10, maxdim=10, init="random", p_clip=0.2, p_layer=0.06, p_structured=0.25, sources=["solid", "image"],
            curves=0.3, p_zero_dim=0.0)
 RULE = ("random histories of 1..10 calls on one DrawTarget incl. no-op draws (empty, off-surface, zero-area shapes, singular "
         "transforms, zero width), off-surface clip pushes, paths starting with LineTo/Close and shapes of very different "
         "vertical extent; after every call (a) the hook verif_rasterizer_idle must report an idle rasteriser, (b) the call is "
         "replayed by the implementation on a fresh DrawTarget holding the same pixels with the same transform and clip stack "
-        "re-established, and must give identical pixels; (c) pixels equal the model, whose state is idle by theorem")
+        "re-established, and must give identical pixels (pop_layer included: the layer is pushed again on the fresh target and "
+        "given the same content; runs of layers with equal opacity and blend mode under different clips are part of the "
+        "stream); (c) pixels equal the model, whose state is idle by theorem")
 
 
 def post(ctx, sr):
@@ -27,16 +30,41 @@ def post(ctx, sr):
         hdr, ops = scene.split_ops(sr.aug[i])
         W, H = hdr.split()[2:4]
         state_ops = []      # transform + clip stack to re-establish, in order
+        depth, lay = 0, None
         for k, op in enumerate(ops):
             if k >= len(sr.impl[i]) or sr.impl[i][k].panic:
                 break
             kind = sc.op_kind(op)
-            if kind in sc.DRAW_KINDS and kind != "poplayer" and k > 0:
+            if kind in sc.DRAW_KINDS and kind != "poplayer" and k > 0 and depth == 0:
                 prev = sr.impl[i][k - 1].parse()
                 if prev["layer"] is None:
                     fresh.append("scene %d %s %s I %s ; %s" % (len(fresh), W, H, " ".join(prev["surface"]),
                                                               " ; ".join(state_ops + [op])))
                     origin.append((i, k))
+            if kind == "poplayer":
+                # pop_layer is a drawing call too: its pixels are a function of the surface, the layer's content, opacity
+                # and blend mode, and the clip.  Replayed on a fresh target: same surface, same transform / clip stack,
+                # the layer pushed again and given the same content (an image drawn with Src replaces pixels exactly)
+                if depth == 1 and lay is not None and lay["clean"] and k > 0 and not any(o.startswith("clippath") for o in lay["state"]):
+                    prev = sr.impl[i][k - 1].parse()
+                    if prev["layer"] is not None:
+                        (lx0, ly0, lx1, ly1), lpx = prev["layer"]
+                        fill = []
+                        if lx1 > lx0 and ly1 > ly0 and len(lpx) == (lx1 - lx0) * (ly1 - ly0):
+                            last_xf = [o for o in state_ops if o.startswith("xf")][-1:]
+                            fill = ["xf " + scene.xf_tokens(scene.IDENT),
+                                    "drawimage %d %d %d %d %s 1 %d 1" % (FB(float(lx0)), FB(float(ly0)), lx1 - lx0, ly1 - ly0, " ".join(lpx), FB(1.0))] + \
+                                   (last_xf or [])
+                        fresh.append("scene %d %s %s I %s ; %s" % (len(fresh), W, H, " ".join(prev["surface"]),
+                                                                  " ; ".join(lay["state"] + [lay["op"]] + fill + ["poplayer"])))
+                        origin.append((i, k))
+                depth = max(0, depth - 1)
+                lay = None
+            elif kind == "layer":
+                depth += 1
+                lay = dict(state=list(state_ops), op=op, clean=True) if depth == 1 else None
+            elif kind in ("xf", "cliprect", "clippath", "popclip", "surf") and lay is not None:
+                lay["clean"] = False      # the visible state changed while the layer was open: not replayed
             if kind == "xf":
                 state_ops.append(op)     # kept in order: a clip path depends on the transform at push time
             elif kind in ("cliprect", "clippath"):
@@ -46,8 +74,6 @@ def post(ctx, sr):
                     if state_ops[j].startswith("clip"):
                         del state_ops[j]
                         break
-            elif kind == "layer":
-                break
     ctx.cov["fresh_replays"] = len(fresh)
     if not fresh:
         return
@@ -73,7 +99,9 @@ def concrete(sr, i, k, c, op):
     return None
 
 
-ASSUME = ["fresh replays are done when no layer is open (layer contents below the top are not observable)"]
+ASSUME = ["fresh replays of drawing calls are done when no layer is open (layer contents below the top are not observable); "
+          "pop_layer is replayed for un-nested layers during which transform and clip stack did not change, under rectangular clips "
+          "(under a clip path the layer's content cannot be re-created exactly through the public API)"]
 
 
 def run(ctx):
